@@ -183,6 +183,95 @@ def run(ctx):
         ctx.inst("R06.3", "least-favourable-pnl:%s" % nm, bad is None and seen == {"Twap", "SpotPrice"}, qa.fn.where(),
                  bad or "%d paths: TWAP figures iff |spot pnl| > |twap pnl|" % n)
 
+    # ---------------------------------------------------------------- R06.8
+    # the valuation primitive behind every ratio: per calc option the notional is the right vAMM figure for this position
+    # (Twap -> OutputTwap, SpotPrice -> OutputAmount, both of (position.direction, |size|) at position.vamm; Oracle ->
+    # underlying price * |size| / decimals) and the pnl is notional - open notional for a long, the reverse for a short
+    ctx.rule("R06.8", "valuation per calc option: Twap -> vAMM OutputTwap, SpotPrice -> OutputAmount of (position.direction, |size|) at position.vamm, Oracle -> price*|size|/decimals; pnl signed by the position's direction", 3)
+    prim = [f for f in ctx.world.crate_fns(ENG) if not f.derived and "::_::" not in f.pretty and f.kind != "Closure"
+            and "PositionUnrealizedPnlResponse" in f.locals[0]["ty"] and any("PnlCalcOption" in f.locals[i + 1]["ty"] for i in range(f.arg_count))]
+    def _branches_on_option(f):
+        try:
+            ps = ix.ok_paths(f)
+        except Exception:
+            return False
+        ops = [sym.param(f.key, i, f.param_name(i)) for i in range(f.arg_count) if "PnlCalcOption" in f.locals[i + 1]["ty"]]
+        return any(tag(at) == "op" and payload(at)[0] == "discr" and kids(at)[0] in ops for q in ps for (at, _o, _b, _l) in q.conds)
+    prim = [f for f in prim if _branches_on_option(f)]
+    if len(prim) != 1:
+        ctx.lost("R06.8", "the valuation primitive (takes a PnlCalcOption, returns the notional/pnl pair): found %d" % len(prim))
+    for f in prim:
+        ctx.analysed["functions"].add(f.pretty)
+        posp = [sym.param(f.key, i, f.param_name(i)) for i in range(f.arg_count) if f.locals[i + 1]["ty"].endswith("margined_engine::Position")]
+        optp = [sym.param(f.key, i, f.param_name(i)) for i in range(f.arg_count) if "PnlCalcOption" in f.locals[i + 1]["ty"]]
+        per = {}
+        want_msg = {"Twap": "OutputTwap", "SpotPrice": "OutputAmount"}
+        try:
+            oks8 = ix.ok_paths(f)
+        except Exception as e:
+            ctx.undetermined("R06.8", f.pretty, str(e))
+            oks8 = []
+        if posp and optp:
+            pos = posp[0]
+            p_dir, p_vamm, p_notional = (ix.inline(sym.field(pos, n_)) for n_ in ("direction", "vamm", "notional"))
+            p_size = ix.inline(sym.field(sym.field(pos, "size"), "value"))
+            for q in oks8:
+                var = None
+                is_long = None
+                for (at, o, _b, _l) in q.conds:
+                    if tag(at) == "op" and payload(at)[0] == "discr" and kids(at)[0] == optp[0] and isinstance(o, tuple) and o[0] == "variant":
+                        var = o[1]
+                    if tag(at) == "op" and payload(at)[0] == "eq" and o in (True, False):
+                        ks = [ix.inline(k) for k in kids(at)]
+                        if p_dir in ks:
+                            other = [k for k in ks if k != p_dir]
+                            if other and tag(other[0]) == "agg":
+                                is_long = (payload(other[0])[1] == "AddToAmm") == o
+                    if tag(at) == "op" and payload(at)[0] == "discr" and ix.inline(kids(at)[0]) == p_dir and isinstance(o, tuple) and o[0] == "variant":
+                        is_long = o[1] == "AddToAmm"
+                if var is None:
+                    continue
+                r = sym.unwrap(q.ret)
+                nv = ix.inline(sym.field(r, "position_notional"))
+                bad = None
+                if var in want_msg:
+                    pq = ix.parse_query(nv)
+                    mv = ix.msg_variant(pq["msg"]) if pq else None
+                    if not mv or mv[1] != want_msg[var]:
+                        bad = "the %s figure is obtained with vAMM query %s" % (var, mv[1] if mv else "?")
+                    elif ix.inline(pq["addr"]) != p_vamm:
+                        bad = "the %s figure is asked of %s, not of position.vamm" % (var, sym.show(ix.inline(pq["addr"]), 4))
+                    elif ix.inline(mv[2].get("direction")) != p_dir or ix.inline(mv[2].get("amount")) != p_size:
+                        bad = "the %s figure is asked for (%s, %s), not (position.direction, |position.size|)" % (var, sym.show(ix.inline(mv[2].get("direction")), 4), sym.show(ix.inline(mv[2].get("amount")), 4))
+                elif var == "Oracle":
+                    nn = N(ix, nv)
+                    okn = False
+                    if nn[0] == "div" and nn[1][0] == "mul":
+                        fac = [nn[1][1], nn[1][2]]
+                        qs = [x for x in fac if x[0] == "leaf" and isinstance(x[1], int) and ix.parse_query(x[1])]
+                        sz = [x for x in fac if x == ("leaf", p_size)]
+                        if len(qs) == 1 and len(sz) == 1:
+                            pq = ix.parse_query(qs[0][1])
+                            mv = ix.msg_variant(pq["msg"])
+                            dec = nn[2]
+                            okn = bool(mv) and mv[1] == "UnderlyingPrice" and ix.inline(pq["addr"]) == p_vamm and dec[0] == "leaf" and isinstance(dec[1], int) \
+                                and guards.is_field_of_item(ix, dec[1], ENG, "margined_engine:config", "decimals")
+                    if not okn:
+                        bad = "the Oracle notional is %s, not underlying_price(position.vamm) * |size| / config.decimals" % norm.show(nn)[:120]
+                if bad is None and is_long is not None:
+                    pn = N(ix, sym.field(r, "unrealized_pnl"))
+                    a_, b_ = ("pos", N(ix, nv)), ("pos", ("leaf", p_notional))
+                    wantp = ("isub", a_, b_) if is_long else ("isub", b_, a_)
+                    if pn != wantp:
+                        bad = "pnl of a %s is %s" % ("long" if is_long else "short", norm.show(pn)[:140])
+                elif bad is None:
+                    bad = "the pnl's sign is not decided by the position's direction on this path"
+                per.setdefault(var, []).append(bad)
+        for var in ("SpotPrice", "Twap", "Oracle"):
+            res = per.get(var, [])
+            b = [x for x in res if x]
+            ctx.inst("R06.8", "valuation:%s" % var, bool(res) and not b, f.where(), b[0] if b else ("%d paths (long and short): right figure, pnl signed by direction" % len(res) if res else "no path for this option"))
+
     # ---------------------------------------------------------------- R06.7
     # both functions that produce a margin ratio (the MarginRatio query and the per-option one Liquidate uses for the
     # oracle price) return ((remain.margin - remain.bad_debt) * decimals) / notional, where remain is the remain-margin
